@@ -86,6 +86,7 @@ def C18_1(ctx, facts):
     rets = assigns_to_return(f, f.live)
     passthru = [x for (k, b, x) in rets if k == "stmt" and x["r"]["k"] == "use" and op_place(x["r"]["o"]) is not None and
                 any(r.kind == "call" and r.site.bb in ib for r in f.roots(x["r"]["o"], through_calls=False))]
+    passthru += [x for (k, b, x) in rets if k == "call" and b in ib]
     ctx.check(len(passthru) >= 1, "TokioIo Read|other-outcomes-unchanged", "Pending / Err of the inner read are returned unchanged", "non-Ok outcomes are not passed through")
     fresh = [x for (k, b, x) in rets if k == "stmt" and x["r"].get("v") == "Ready"]
     for x in fresh:
